@@ -1,8 +1,9 @@
 #!/bin/bash
 # Run once after a fresh restore (offline): pre-build the harness so that check runs are incremental.
 set -euo pipefail
-cd /verif
-export GOFLAGS=-mod=mod GOPROXY=off GOSUMDB=off GOTOOLCHAIN=local
+ROOT=$(cd "$(dirname "$0")/.." && pwd)
+export VERIF_ROOT=$ROOT
+cd "$ROOT"
 mkdir -p .build evidence
-tools/build.sh /verif/.build/vmain
+tools/build.sh "$ROOT/.build/vmain"
 echo setup ok
